@@ -70,7 +70,7 @@ def run(ctx) -> None:
         if "+" in kind:
             raise AnalysisError(f"path with two positive kind flags survived pruning: {kind}")
         alts = expected(kind, isdir, rec, full, root)
-        results = [compare(r.emissions, a, isdir) for a in alts]
+        results = [compare(r.emissions, a, d) for d, a in alts]
         # with an undetermined mode bit that matters, *each* alternative must be met by this one path: impossible
         # unless the alternatives coincide (expected() already merged equal ones)
         if len(alts) == 1:
@@ -79,7 +79,7 @@ def run(ctx) -> None:
             ok = False
             msg = (
                 "path does not distinguish a mode bit the contract depends on "
-                f"(recursive={rec}, root={root}); emits {r.brief()}"
+                f"(is_directory={isdir}, recursive={rec}, root={root}); emits {r.brief()}"
             )
             unres = 0
         unresolved_total += unres
@@ -91,7 +91,7 @@ def run(ctx) -> None:
             construct,
             msg + f" [{SOURCE.get(kind, 'R')}-row]; found: {r.brief()}",
             loc,
-            detail={"valuation": r.path.sig(), "found": r.brief(), "expected": [[e.__dict__ for e in a] for a in alts]},
+            detail={"valuation": r.path.sig(), "found": r.brief(), "expected": [[e.__dict__ for e in a] for _d, a in alts]},
             nontrivial=bool(r.emissions) or kind != "none",
         )
         seen_rows.add((kind, isdir, full))
@@ -104,7 +104,7 @@ def run(ctx) -> None:
             for isdir in (True, False):
                 if kind == "is_delete_self" and not isdir:
                     continue
-                if not any(expected(kind, isdir, True, full, True)):
+                if not any(a for _d, a in expected(kind, isdir, True, full, True)):
                     continue  # the contract expects nothing for this combination (e.g. open/close on a directory)
                 ctx.check(
                     (kind, isdir, full) in seen_rows,
@@ -186,3 +186,27 @@ def run(ctx) -> None:
         rd.loc,
         detail={"roots": roots, "reached": found},
     )
+
+
+IN = "observers/inotify.py"
+EV = "events.py"
+VARIANTS = [
+    dict(name="B swap Dir/File arms in the delete branch", expect="fire", rule="C03/emission-contract", edits=[(IN, "                cls = DirDeletedEvent if event.is_directory else FileDeletedEvent\n                self.queue_event(cls(src_path))\n                self.queue_event(DirModifiedEvent(os.path.dirname(src_path)))\n            elif event.is_moved_from and full_events:", "                cls = FileDeletedEvent if event.is_directory else DirDeletedEvent\n                self.queue_event(cls(src_path))\n                self.queue_event(DirModifiedEvent(os.path.dirname(src_path)))\n            elif event.is_moved_from and full_events:")]),
+    dict(name="B drop the parent event after MOVED_TO", expect="fire", rule="C03/emission-contract", edits=[(IN, "                    self.queue_event(cls(src_path))\n                self.queue_event(DirModifiedEvent(os.path.dirname(src_path)))\n                if event.is_directory and self.watch.is_recursive:", "                    self.queue_event(cls(src_path))\n                if event.is_directory and self.watch.is_recursive:")]),
+    dict(name="B swap src/dest of the paired move", expect="fire", rule="C03/emission-contract", edits=[(IN, "self.queue_event(cls(src_path, dest_path))", "self.queue_event(cls(dest_path, src_path))")]),
+    dict(name="B emitter marks an event synthetic", expect="fire", rule="C03/", edits=[(IN, "                cls = DirCreatedEvent if event.is_directory else FileCreatedEvent\n                self.queue_event(cls(src_path))\n                self.queue_event(DirModifiedEvent(os.path.dirname(src_path)))\n            elif event.is_delete_self", "                cls = DirCreatedEvent if event.is_directory else FileCreatedEvent\n                self.queue_event(cls(src_path, is_synthetic=True))\n                self.queue_event(DirModifiedEvent(os.path.dirname(src_path)))\n            elif event.is_delete_self")]),
+    dict(name="B sub-created events only in normal mode", expect="fire", rule="C03/emission-contract", edits=[(IN, "                if full_events:\n                    cls = DirMovedEvent if event.is_directory else FileMovedEvent\n                    self.queue_event(cls(\"\", src_path))\n                else:\n                    cls = DirCreatedEvent if event.is_directory else FileCreatedEvent\n                    self.queue_event(cls(src_path))\n                self.queue_event(DirModifiedEvent(os.path.dirname(src_path)))\n                if event.is_directory and self.watch.is_recursive:", "                if full_events:\n                    cls = DirMovedEvent if event.is_directory else FileMovedEvent\n                    self.queue_event(cls(\"\", src_path))\n                else:\n                    cls = DirCreatedEvent if event.is_directory else FileCreatedEvent\n                    self.queue_event(cls(src_path))\n                self.queue_event(DirModifiedEvent(os.path.dirname(src_path)))\n                if event.is_directory and self.watch.is_recursive and not full_events:")]),
+    dict(name="B sub events for non-recursive watches", expect="fire", rule="C03/emission-contract", edits=[(IN, "                if move_from.is_directory and self.watch.is_recursive:", "                if move_from.is_directory:")]),
+    dict(name="B parent event carries the entry path", expect="fire", rule="C03/emission-contract", edits=[(IN, "                self.queue_event(cls(src_path, \"\"))\n                self.queue_event(DirModifiedEvent(os.path.dirname(src_path)))", "                self.queue_event(cls(src_path, \"\"))\n                self.queue_event(DirModifiedEvent(src_path))")]),
+    dict(name="B closed event for directories too", expect="fire", rule="C03/emission-contract", edits=[(IN, "            elif not event.is_directory:\n                if event.is_open:", "            elif True:\n                if event.is_open:")]),
+    dict(name="B generator marks nothing synthetic", expect="fire", rule="C03/synthetic-only-from-generators", edits=[(EV, "            yield FileCreatedEvent(full_path, is_synthetic=True)", "            yield FileCreatedEvent(full_path)")]),
+    dict(name="B non-root delete_self reported", expect="fire", rule="C03/emission-contract", edits=[(IN, "            elif event.is_delete_self and src_path == self.watch.path:", "            elif event.is_delete_self:")]),
+    dict(name="E extract an _emit_with_parent helper", expect="silent", edits=[(IN, "                cls = DirCreatedEvent if event.is_directory else FileCreatedEvent\n                self.queue_event(cls(src_path))\n                self.queue_event(DirModifiedEvent(os.path.dirname(src_path)))\n            elif event.is_delete_self", "                cls = DirCreatedEvent if event.is_directory else FileCreatedEvent\n                self._emit_with_parent(cls, src_path)\n            elif event.is_delete_self"), (IN, "    def _decode_path(self, path: bytes | str) -> bytes | str:", "    def _emit_with_parent(self, cls, path) -> None:\n        self.queue_event(cls(path))\n        self.queue_event(DirModifiedEvent(os.path.dirname(path)))\n\n    def _decode_path(self, path: bytes | str) -> bytes | str:")]),
+    dict(name="E reorder independent elif arms", expect="silent", edits=[(IN, "            elif event.is_attrib or event.is_modify:\n                cls = DirModifiedEvent if event.is_directory else FileModifiedEvent\n                self.queue_event(cls(src_path))\n            elif event.is_delete or (event.is_moved_from and not full_events):\n                cls = DirDeletedEvent if event.is_directory else FileDeletedEvent\n                self.queue_event(cls(src_path))\n                self.queue_event(DirModifiedEvent(os.path.dirname(src_path)))", "            elif event.is_delete or (event.is_moved_from and not full_events):\n                cls = DirDeletedEvent if event.is_directory else FileDeletedEvent\n                self.queue_event(cls(src_path))\n                self.queue_event(DirModifiedEvent(os.path.dirname(src_path)))\n            elif event.is_attrib or event.is_modify:\n                cls = DirModifiedEvent if event.is_directory else FileModifiedEvent\n                self.queue_event(cls(src_path))")]),
+]
+
+
+def thorough(ctx):
+    from ..selftest import thorough as st
+
+    return st(ctx, VARIANTS)
